@@ -214,6 +214,7 @@ inductive Call where
   | setFont (font : String) (size : Num)
   | setAlpha (α : Num) (stroke : Bool) (fill : Option Bool)
   | setState (d : ExtG)
+  | softMaskState                       -- the part of `set_alpha_state` on the calling stream, after `add_group`
   | setBlendMode (mode : String)
   | beginMarked (elementTag : String) (mcid : Bool) (tag : Option String)
   | endMarked
@@ -275,13 +276,22 @@ def setAlpha (r : Res) (s : SState) (α : Num) (stroke : Bool) (fill : Option Bo
     setAlphaFill (alphaStrokePart r s α stroke).2 (alphaStrokePart r s α stroke).1 α
   else alphaStrokePart r s α stroke
 
-/-- The colour operators of `set_color` after the cache test. -/
+/-- Python's `channel or 0`: a falsy channel (`None` — a CSS Color 4 `none` component —, `0`, `0.0`) becomes the
+int `0`, anything else is kept. -/
+def Num.orZero (n : Num) : Num :=
+  match n with
+  | .none => .int 0
+  | .int i => if i = 0 then .int 0 else .int i
+  | .flt q => if q = 0 then .int 0 else .flt q
+
+/-- The colour operators of `set_color` after the cache test.  Last branch (unsupported colour space, as repaired):
+`self.set_color_rgb(*(channel or 0 for channel in channels), stroke)`. -/
 def colourOps (c : Colour) (stroke : Bool) : List Op :=
   match spaceClass c.space with
   | .rgb => [.rgb c.k1 c.k2 c.k3 stroke]
   | .labD65 => [.cs "lab-d65" stroke, .scn [c.k1, c.k2, c.k3] none stroke]
   | .labD50 => [.cs "lab-d50" stroke, .scn [c.k1, c.k2, c.k3] none stroke]
-  | .other => [.rgb c.c1 c.c2 c.c3 stroke]
+  | .other => [.rgb c.c1.orZero c.c2.orZero c.c3.orZero stroke]
 
 def SState.emitAll (s : SState) (os : List Op) : SState := os.foldl SState.emit s
 
@@ -301,6 +311,14 @@ def setColor (r : Res) (s : SState) (c : Colour) (stroke : Bool) : SState × Res
 /-- `Stream.set_state(dict)`: registered under a fresh `s{len}` key, always emitted, caches untouched. -/
 def setState (r : Res) (s : SState) (d : ExtG) : SState × Res :=
   (s.emit (.gs (GKey.s r.extG.length) d), r.addG (GKey.s r.extG.length) d)
+
+/-- The ExtGState dictionary `set_alpha_state` builds: `{SMask: {G: alpha_stream}, ca: 1, AIS: false}`. -/
+def softMaskDict : ExtG := { ca := some (.int 1), kind := "smask" }
+
+/-- The end of `Stream.set_alpha_state` (as repaired): `self.set_state(alpha_state)` and, because that state sets
+`ca` to 1, `self._current_alpha = None`. -/
+def softMaskState (r : Res) (s : SState) : SState × Res :=
+  ({ (setState r s softMaskDict).1 with alphaF := none }, (setState r s softMaskDict).2)
 
 /-- The peephole of `pop_state`: `if self.stream and self.stream[-1] == b'q': self.stream.pop()` else append `Q`. -/
 def popOps (s : SState) : SState :=
@@ -359,6 +377,7 @@ def stepS (r : Res) (s : SState) : Call → Except PyErr (SState × Res)
     else .ok ({ s with font := some (f, sz.val) }.emit (.Tf f sz), r)
   | .setAlpha α stroke fill => .ok (setAlpha r s α stroke fill)
   | .setState d => .ok (setState r s d)
+  | .softMaskState => .ok (softMaskState r s)
   | .setBlendMode mode => .ok (setState r s { kind := "blend:" ++ mode })
   | .beginMarked elementTag mcid tag => .ok (beginMarked s elementTag mcid tag, r)
   | .endMarked => if !s.mark then .ok (s, r) else .ok (s.emit .EMC, r)
@@ -490,6 +509,37 @@ def WB (calls : List Call) : Prop := apiRun [] calls = some []
 
 /-- What of the API stack is visible in the operators: marked-content calls are no-ops without `_mark`. -/
 def vis (mark : Bool) (st : List Fr) : List Fr := if mark then st else st.filter (· != .M)
+
+/-! ## Cache discipline (what the call sites guarantee about the raw setters) -/
+
+/-- Calls after which the caches of `Stream` still mirror the graphics state: everything except the raw pydyf-level
+setters that change colour / alpha without telling the caches (`set_color_space`, `set_color_special`, and a bare
+`set_state` with a dictionary that sets `ca` / `CA`).  `set_alpha_state` — the only caller of `set_state` with such a
+dictionary in WeasyPrint — is safe since the repair: it forgets `_current_alpha` (`Call.softMaskState`). -/
+def Call.cacheSafe : Call → Bool
+  | .setState d => d.ca.isNone && d.CA.isNone
+  | .setColorSpace .. => false
+  | .setColorSpecial .. => false
+  | _ => true
+
+/-- The calls that read (and write) the colour / alpha caches. -/
+def Call.reader : Call → Bool
+  | .setColor .. | .setAlpha .. => true
+  | _ => false
+
+/-- The calls that change colour or alpha without telling the caches. -/
+def Call.dirtying (c : Call) : Bool := !c.cacheSafe
+
+/-- The discipline: `dirty` = a raw setter was called since the last `pop_state`.  While dirty, no cache reader. -/
+def scopedOK : Bool → List Call → Bool
+  | _, [] => true
+  | dirty, c :: cs =>
+    if c.dirtying then scopedOK true cs
+    else if dirty then
+      (match c with
+       | .pop => scopedOK false cs
+       | _ => !c.reader && scopedOK true cs)
+    else scopedOK false cs
 
 /-! ## Reference graphics-state interpreter -/
 
@@ -641,10 +691,11 @@ def World.step (w : World) : WCall → Except PyErr World
           else w.images ++ [(name, [ratio.val])]
         .ok { w with res := w.res.set s.res r', images := images }
   | .setAlphaState h =>
-    -- alpha_stream = self.add_group(…); self.set_state({SMask: {G: alpha_stream}, ca: 1, AIS: false})
+    -- alpha_stream = self.add_group(…); self.set_state({SMask: {G: alpha_stream}, ca: 1, AIS: false});
+    -- self._current_alpha = None
     match w.addGroup h with
     | .error e => .error e
-    | .ok w' => w'.onCall h (.setState { ca := some (.int 1), kind := "smask" })
+    | .ok w' => w'.onCall h .softMaskState
   | .clone h =>
     match w.streams[h]? with
     | none => .error badHandle
